@@ -8,6 +8,7 @@ import (
 	"testing"
 
 	"github.com/tobgu/qframe"
+	"github.com/tobgu/qframe/config/csv"
 	"github.com/tobgu/qframe/config/groupby"
 	"github.com/tobgu/qframe/types"
 	"pgregory.net/rapid"
@@ -336,15 +337,29 @@ func TestC01(t *testing.T) {
 							add(&member{kind: kind, view: v, origin: opName, ixGrp: m.ixGrp})
 						}
 					}
-				case op == 17: // ToCSV / ToJSON / String
-					opName = "ToCSV+ToJSON+String"
+				case op == 17: // ToCSV (incl. the Columns/Header options) / ToJSON / String
+					var order []string
+					if usable && rapid.Bool().Draw(t, "csvcolumns") {
+						order = rapid.Permutation(tab.Names()).Draw(t, "csvorder")
+					}
+					noHeader := rapid.Bool().Draw(t, "csvnoheader")
+					opName = fmt.Sprintf("ToCSV(columns=%q,noHeader=%v)+ToJSON+String", order, noHeader)
+					before := fmt.Sprint(order)
 					run = func() {
 						var buf bytes.Buffer
-						_ = qf.ToCSV(&buf)
+						var fns []csv.ToConfigFunc
+						if order != nil {
+							fns = append(fns, csv.Columns(order))
+						}
+						if noHeader {
+							fns = append(fns, csv.Header(false))
+						}
+						_ = qf.ToCSV(&buf, fns...)
 						_ = qf.ToJSON(&buf)
 						_ = qf.String()
 						_ = qf.ByteSize()
 					}
+					argCheck = func() string { return diffStr("Columns option", before, fmt.Sprint(order)) }
 				case op == 18: // Equals against any other frame member
 					var others []*member
 					for _, o := range family {
